@@ -118,7 +118,22 @@ def _pair(prop, rec):
     return replay_pair(prop, rec)
 
 
+def _c09(prop, rec):
+    from .props_c09 import replay as r
+
+    return r(prop, rec)
+
+
+def _c15(prop, rec):
+    from .props_c15 import replay as r
+
+    return r(prop, rec)
+
+
 REPLAYERS = {
+    "c15": _c15,
+    "c09-graph": _c09,
+    "c09-string": _c09,
     "molfile-pair": _pair,
     "molfile-vs-mol": _mvm,
     "string-of-molfile": _strings,
